@@ -102,6 +102,34 @@ GLOBAL_ACCESS = {
 }
 
 
+class _AbiVar:
+    """a uint64 variable held in an ABI value (abi.Uint64): set()/get() instead of store()/load()"""
+
+    def __init__(self):
+        self.inst = pt.abi.Uint64()
+        # None: the value lives in the frame of a version 8+ subroutine, not in a scratch slot
+        self.slot = getattr(self.inst._stored_value, "slot", None)
+
+    def store(self, e):
+        return self.inst.set(e)
+
+    def load(self):
+        return self.inst.get()
+
+
+class _RawSlotVar:
+    """a uint64 variable held in a bare ScratchSlot used through ScratchStore / ScratchLoad"""
+
+    def __init__(self):
+        self.slot = pt.ScratchSlot()
+
+    def store(self, e):
+        return pt.ScratchStore(self.slot, e)
+
+    def load(self):
+        return pt.ScratchLoad(self.slot, pt.TealType.uint64)
+
+
 class Builder:
     def __init__(self, prog, cfg, tickmode="log", share=False):
         self.prog = prog
@@ -118,6 +146,10 @@ class Builder:
         self.scopes = [self.vars]
 
     def mkvar(self, ty):
+        if ty == "abi":
+            return _AbiVar()
+        if ty == "raw":
+            return _RawSlotVar()
         if isinstance(ty, (list, tuple)):
             ty, slot = ty
             return pt.ScratchVar(pt.TealType.uint64 if ty == "u" else pt.TealType.bytes, slot)
@@ -238,7 +270,7 @@ class Builder:
 
     def b_Load(self, t):
         v = self.var(t[1])
-        if isinstance(v, pt.ScratchVar):
+        if isinstance(v, (pt.ScratchVar, _AbiVar, _RawSlotVar)):
             return v.load()
         return v  # by-value parameter Expr
 
